@@ -40,6 +40,58 @@ def rule_alloca(chk, prog):
     return n
 
 
+def rule_highwater(chk, prog):
+    """K13-highwater: the number of valid block-size words of a file inode is a high-water mark.  Blocks of one file do
+    not complete in index order (a sparse or all-zero block skips the I/O queue), so the store that records 'entries up
+    to index i are in use' next to  extra[i] = size  must not lower the mark: it is guarded by a comparison of the new
+    value with the current one."""
+    n = 0
+    for f in prog.functions():
+        if f.decl or not f.unit.src.startswith("lib/sqfs/src/block_processor/"):
+            continue
+        f.build()
+        idx_stores = []
+        for i in f.insts():
+            if i.op != "store":
+                continue
+            q = strip_casts(i.ops[1])
+            if q.is_inst and q.op == "getelementptr" and any(el[0] in ("[]", "*") and not (el[1].is_const) for el in q.x["gep"]):
+                chain, x = [], q
+                while x.is_inst and x.op in ("getelementptr", "bitcast"):
+                    if x.op == "getelementptr":
+                        chain += [fl[1] for fl in (x.fields() or [])]
+                    x = x.ops[0]
+                if "extra" in chain:
+                    idx_stores.append(i)
+        if not idx_stores:
+            continue
+        for i in f.insts():
+            if i.op != "store":
+                continue
+            q = strip_casts(i.ops[1])
+            if not (q.is_inst and q.op == "getelementptr" and q.field() and q.field()[1] == "payload_bytes_used"):
+                continue
+            if i.ops[0].is_const:
+                continue
+            n += 1
+            chk.analysed(f)
+            inst = "%s:payload_bytes_used@%d" % (f.name, i.line)
+            ok = False
+            for (cond, outcome, br) in f.guards_at(i.bb):
+                if cond.is_inst and cond.op == "icmp" and cond.pred in ("ult", "ule", "ugt", "uge", "slt", "sle", "sgt", "sge"):
+                    sl = [x for o in cond.ops for x in [o] + list(backward_slice(o, phi_control=False, limit=20))]
+                    if any(x.is_inst and x.op == "load" and strip_casts(x.ops[0]).is_inst and strip_casts(x.ops[0]).op == "getelementptr"
+                           and strip_casts(x.ops[0]).field() and strip_casts(x.ops[0]).field()[1] == "payload_bytes_used" for x in sl):
+                        ok = True
+            if ok:
+                chk.ok("K13-highwater", inst, i, "the mark is only moved when the new value is compared with the current one")
+            else:
+                chk.violation("K13-highwater", inst, i, "the count of valid block-size words is overwritten without looking at its "
+                              "current value: a block that completes out of order (an all-zero tail end overtakes the file's "
+                              "data blocks) lowers it and the inode is written with block sizes missing")
+    return n
+
+
 def run(chk):
     chk.explanation = (
         "Fidelity as a whole (tree in = tree out, byte-identical contents) is value-level and not decided. Decided, on "
@@ -52,7 +104,7 @@ def run(chk):
         "with qsort, the rbtree or the hash table (hard-link (device, inode) key, directory cache, xattr block dedup, string "
         "table) is evaluated over all 3^k orderings of its key parts: reflexive, antisymmetric, every part relevant, "
         "lexicographic -- distinct keys are never merged; (g) K2-exact: length-limited comparisons of node names check the "
-        "terminator.")
+        "terminator. K13-highwater: the count of valid block-size words of a file inode is never lowered. E4/E7 of C13 over the gensquashfs closure: a write or allocation failure is not forgotten (exit 0 with an unreadable image).")
     chk.assumptions = ["hard-link grouping, xattr round trip and data contents are not decided"]
     prog = load_program("all")
     run_k7(chk, prog, "K7")
@@ -71,6 +123,17 @@ def run(chk):
     from .c08 import rule_g_truncate, rule_i_every_block
     rule_g_truncate(chk, load_program("gensquashfs"))
     rule_i_every_block(chk, load_program("gensquashfs"))
+    rule_highwater(chk, load_program("gensquashfs"))
+    chk.floor("K13-highwater", 1)
+    # a write error that is lost lets the packer exit 0 with an image that does not read back: the error-flow rules of
+    # C13 that decide 'a failure is not forgotten' are necessary conditions here as well
+    from .c13 import rule_e4, rule_e7, tristate_functions
+    from ..errflow import ErrModel
+    gp = load_program("gensquashfs")
+    em = ErrModel(gp)
+    rule_e4(chk, gp, em, "gensquashfs", set())
+    rule_e7(chk, gp, em, "gensquashfs", set())
+    chk.floor("E4", 30)
     chk.floor("K13-truncate", 1)
     chk.floor("K7", 45)
     chk.floor("A1", 150)
